@@ -262,11 +262,18 @@ def audit_sources():
     return hits
 
 
+# property theorems that live in a shared module
+EXTRA_PROPERTY_MODULES = {"C02": ["Sighash"], "C06": ["Sighash"]}
+
+
 def theorems_of(pid):
     """Property theorems = every `theorem` declared in BtcdebProofs/Properties/<pid>.lean (+ Tables)."""
     res = []
-    for mod in (pid, "Tables"):
-        path = os.path.join(LEAN, "BtcdebProofs/Properties", mod + ".lean")
+    d = os.path.join(LEAN, "BtcdebProofs/Properties")
+    mods = sorted(f[:-5] for f in os.listdir(d) if re.fullmatch(re.escape(pid) + r"[A-Za-z]*\.lean", f))
+    mods += EXTRA_PROPERTY_MODULES.get(pid, [])
+    for mod in mods + ["Tables"]:
+        path = os.path.join(d, mod + ".lean")
         if not os.path.exists(path):
             continue
         src = strip_comments(open(path).read())
@@ -328,6 +335,10 @@ def lean_phase(ctx):
             return False
         thms = theorems_of(ctx.pid)
         ctx.obligations = [t_ for _, t_ in thms]
+        if not any(m.startswith(ctx.pid) for m, _ in thms):
+            ctx.proof_ok = False
+            ctx.proof_failures.append(f"no property theorem file BtcdebProofs/Properties/{ctx.pid}.lean")
+            log(f"[lean] no property theorems for {ctx.pid}")
         mods = sorted({m for m, _ in thms}) or [ctx.pid]
         rc, out = lake([f"BtcdebProofs.Properties.{m}" for m in mods])
         if rc != 0:
